@@ -448,3 +448,117 @@ Example C04_example_pool_sites :
   existsb (fun p => ps_row_eq (fst p) ps_row_writer_release) pool_site_table = true /\
   existsb (fun p => ps_row_eq (fst p) ps_row_readheaders_release) pool_site_table = true.
 Proof. exact pool_sites_example. Qed.
+
+(* ================================================================== THE READER DRAINS ITS EXCHANGE
+   (strengthening W04)
+
+   "each caller receives the complete, unmodified response produced for its own request ... with
+   exchanges timing out or being cancelled while others proceed": a connection-level event (the peer
+   closes the connection right after answering, a protocol error caused by another call's frame, a
+   failing write of another call) notifies EVERY exchange of the connection.  It must take nothing
+   away from a call whose response frames have already been delivered to its exchange.
+
+   messageExchange.recvPeerFrame's priority (context error, delivered frames, notified error) is
+   Model/Mex.v's LRecvCheck ; (LRecvFrame | LRecvCtxDone | LRecvErr), tied to the source by
+   Gen/GenMexProg.v.  Here: (1) the functions ABOVE it on the reader's path put no other question to
+   the exchange first -- their statement structure, regenerated on every run
+   (Gen/GenC04Reader.v, go2v/c04reader.go), executes to the model's fetch; the regenerated table of
+   every place of the package that consults an exchange's error channel is the expected one and
+   contains no function of the reader's path; (2) in the model, from every reachable state, a reader
+   with a live context receives all the frames on its queue, in order, whatever was notified, for
+   every choice of the scheduler at the selects; a fetch ends with the notified error only on an
+   empty queue. *)
+From Verif Require Import Spec.C04ReaderSpec Gen.GenC04Reader Model.C04Reader Proofs.C04ReaderP
+  Spec.ChanProg Gen.GenMexProg Model.MexProg Proofs.MexProgP.
+
+(* reqResReader.recvNextFragment, as regenerated: the initial fragment if the reader holds one,
+   else exactly one mex.recvPeerFrame (through recvPeerFrameOfType, next theorem) *)
+Theorem C04_reader_fetch_generated : forall initial s r sel,
+  c04r_exec c04r_recvNextFragment initial [] s r sel = c04r_fetch initial s r sel.
+Proof. exact c04r_next_fragment_generated. Qed.
+Print Assumptions C04_reader_fetch_generated.
+
+(* messageExchange.recvPeerFrameOfType, as regenerated up to its type switch: one recvPeerFrame,
+   its error passed on unchanged *)
+Theorem C04_reader_of_type_generated : forall s r sel,
+  c04r_exec c04r_recvPeerFrameOfType false [] s r sel = c04r_recv s r sel.
+Proof. exact c04r_of_type_generated. Qed.
+Print Assumptions C04_reader_of_type_generated.
+
+(* ... and messageExchange.recvPeerFrame / forwardPeerFrame themselves, regenerated as channel
+   programs (Gen/GenMexProg.v), are the model's steps: with the two theorems above the whole path
+   recvNextFragment -> recvPeerFrameOfType -> recvPeerFrame is tied to Model/Mex.v *)
+Theorem C04_recv_order_generated : forall s l,
+  prog_step_obs mexForwardPeerFrame mexRecvPeerFrame s l = step_obs true s l.
+Proof. exact prog_step_generated. Qed.
+Print Assumptions C04_recv_order_generated.
+
+(* every consultation of an exchange's error channel in package tchannel is one of the expected
+   rows (mex.go's three functions, the writer half, the inbound watcher) ... *)
+Theorem C04_errch_sites_generated :
+  c04r_errch_sites = map (fun x => (c04r_s2z (fst (fst x)), snd (fst x))) c04r_expected_sites.
+Proof. exact c04r_errch_sites_expected. Qed.
+Print Assumptions C04_errch_sites_generated.
+
+(* ... and none of them is in a function on the reader's path *)
+Theorem C04_reader_path_silent : forall site f,
+  In site c04r_errch_sites -> In f c04r_reader_path -> fst site <> c04r_s2z f.
+Proof. exact c04r_reader_path_silent. Qed.
+Print Assumptions C04_reader_path_silent.
+
+(* DELIVERED BEFORE ERROR.  Reachable state, exchange r with a live context whose reader is not
+   inside recvPeerFrame; NO hypothesis on its error channel.  As many fetches as there are frames
+   on the queue, the scheduler choosing any select arm each time: if they all return, they return
+   exactly the queued frames in order, the queue is empty afterwards and the received history grew
+   by exactly those frames ... *)
+Theorem C04_delivered_before_error : forall ls s r e sels s' os,
+  run ls = Some s -> nth_error (s_mexes s) r = Some e -> m_cpc e = false -> m_ctx e = 0 ->
+  length sels = length (m_queue e) -> Forall (c04r_sel_ok r) sels ->
+  c04r_fetches s r sels = Some (s', os) ->
+  os = map (fun f => [0; f_tag f]) (m_queue e) /\
+  exists e', nth_error (s_mexes s') r = Some e' /\ m_queue e' = [] /\
+             g_received (m_g e') = g_received (m_g e) ++ m_queue e.
+Proof. exact c04r_delivered_before_error. Qed.
+Print Assumptions C04_delivered_before_error.
+
+(* ... and they can all return (the arm "a frame is ready" is enabled every time) *)
+Theorem C04_delivered_before_error_enabled : forall ls s r e,
+  run ls = Some s -> nth_error (s_mexes s) r = Some e -> m_cpc e = false -> m_ctx e = 0 ->
+  exists s', c04r_fetches s r (map (fun _ => LRecvFrame r) (m_queue e)) =
+             Some (s', map (fun f => [0; f_tag f]) (m_queue e)).
+Proof. exact c04r_delivered_before_error_enabled. Qed.
+Print Assumptions C04_delivered_before_error_enabled.
+
+(* a fetch of a reader with a live context that finds the queue empty and returns, returns the
+   notified error: errors of the exchange surface only after the queue *)
+Theorem C04_error_only_when_empty : forall s r e sel s' o,
+  nth_error (s_mexes s) r = Some e -> m_cpc e = false -> m_ctx e = 0 -> m_queue e = [] ->
+  c04r_sel_ok r sel -> c04r_recv s r sel = Some (s', o) -> o = [m_err e] /\ m_err e <> 0.
+Proof. exact c04r_recv_error_when_empty. Qed.
+Print Assumptions C04_error_only_when_empty.
+
+(* the writer's idiom in front of the receive is a different function: frame queued, error
+   notified => the error *)
+Theorem C04_check_first_differs : forall k s r e f q,
+  nth_error (s_mexes s) r = Some e -> m_ctx e = 0 -> m_err e <> 0 -> m_queue e = f :: q ->
+  c04r_exec (C04rIf C04rtMexCheckError (C04rRet C04rrFailed) k) false [] s r (LRecvFrame r) = Some (s, [m_err e]).
+Proof. exact c04r_check_first_differs. Qed.
+Print Assumptions C04_check_first_differs.
+
+(* non-vacuity: two calls (ids 5, 9), a two-frame and a one-frame response delivered, the
+   connection fails (stopExchanges 17 notifies both), THEN the callers read: each gets its own
+   frames, the select taking the error-channel arm included; the next fetch gets the error *)
+Definition ex_drain_trace : list label :=
+  [LNew 5 2; LNew 9 2;
+   LLookup (mkF 5 1); LFwdCheck; LFwdSend; LLookup (mkF 9 2); LFwdCheck; LFwdSend;
+   LLookup (mkF 5 3); LFwdCheck; LFwdSend;
+   LStopCopy 17; LStopNotify 0; LStopNotify 0].
+Example C04_example_drain :
+  exists s s1 s2 s3, run ex_drain_trace = Some s /\
+    map m_err (s_mexes s) = [17; 17] /\
+    c04r_fetches s 0 [LRecvErr 0; LRecvFrame 0] = Some (s1, [[0; 1]; [0; 3]]) /\
+    c04r_fetches s1 1 [LRecvErr 1] = Some (s2, [[0; 2]]) /\
+    c04r_fetches s2 0 [LRecvErr 0] = Some (s3, [[17]]) /\
+    run_c04drain [2; 17; 2; 2; 2; 1; 1; 3; 0; 1; 0] = [2; 0; 1; 0] /\
+    run_c04drain [2; 17; 2; 3; 2; 1; 0; 2; 0; 0] = [2; 17; 0; 17].
+Proof. vm_compute. do 4 eexists. repeat split. Qed.
